@@ -24,12 +24,12 @@ Accept(e) ==
   /\ Len(t) <= mem2                                       \* count never exceeds capacity
   /\ e.slot # -3                                          \* no pointer outside owned storage
   /\ (IF isvec THEN TRUE ELSE (e.op \in {"setm", "setz", "create"} \/ mem2 = mem))    \* the buffer never grows by itself
-  /\ CASE e.op \in {"push_back", "push_fore", "insert"} ->
-            LET i == IF e.op = "push_back" THEN HUGE ELSE IF e.op = "push_fore" THEN 0 ELSE e.a1 IN
+  /\ CASE e.op \in {"push_back", "push_fore", "insert", "push"} ->
+            LET i == IF e.op \in {"push_back", "push"} THEN HUGE ELSE IF e.op = "push_fore" THEN 0 ELSE e.a1 IN
             IF fits(1) THEN t = InsAt(s, i, e.a2) /\ e.slot = InsPos(s, i) /\ inside
                        ELSE same /\ e.slot = -1
-       [] e.op \in {"pull_back", "pull_fore", "remove"} ->
-            LET i == IF e.op = "pull_back" THEN HUGE ELSE IF e.op = "pull_fore" THEN 0 ELSE e.a1 IN
+       [] e.op \in {"pull_back", "pull_fore", "remove", "pull"} ->
+            LET i == IF e.op \in {"pull_back", "pull"} THEN HUGE ELSE IF e.op = "pull_fore" THEN 0 ELSE e.a1 IN
             IF n = 0 THEN same /\ e.slot = -1
             ELSE t = RemAt(s, i) /\ inside /\ e.val = s[RemPos(s, i) + 1]
        [] e.op = "store" ->
